@@ -175,3 +175,19 @@ package ice
 //@   ensures no-match-no-request: !result0 ==> result1 == nil
 
 //@ enumerate C20 stores ice.controllingSelector.lastConfirmedNomination in (*controllingSelector).Start, (*controllingSelector).HandleSuccessResponse
+
+// Only a controlling agent with the feature enabled can renominate, and only a pair it knows: every other call is
+// refused without sending anything; the request goes out for exactly the pair found, with the value the
+// generator produced for this call.
+// ASSUMED: the application's nomination value generator does not touch agent state.
+//@ noeffect ice.Agent.nominationValueGenerator
+//@ func (*Agent).renominateCandidate
+//@   props C20
+//@   opt nosafety
+//@   ghostvar sent bool = false
+//@   site call findPair#1 assert looks-up-the-pair-of-these-candidates: arg1 == local && arg2 == remote
+//@   site call sendNominationRequest#1 assert only-a-controlling-agent-with-the-feature-enabled-renominates: a.isControlling != 0 && a.enableRenomination && arg1 == pair && pair != nil
+//@   site call sendNominationRequest#1 ghost sent := true
+//@   ensures a-controlled-agent-is-refused: old(a.isControlling) == 0 ==> result != nil && !sent
+//@   ensures a-disabled-feature-is-refused: !old(a.enableRenomination) ==> result != nil && !sent
+//@   ensures refusals-send-nothing: !sent ==> result != nil
